@@ -483,18 +483,25 @@ func serveEphemeral(w http.ResponseWriter, req *http.Request, session *ServerSes
 	defer session.Close()
 
 	transport.ServeHTTP(w, req)
-	if !info.hasCall {
-		// Notifications (and responses) are acknowledged as soon as they are
-		// queued for the session, which may not have read them yet; closing the
-		// session now would drop them unhandled although the client was told
-		// that they were accepted. This request is all the input the session
-		// will ever get, so end its input instead and wait until it has handled
-		// what it was given. (Nothing has been sent to the client yet: the
-		// acknowledgement goes out when the HTTP handler returns, so a client
-		// that has seen it can rely on the notification having been handled.)
-		close(transport.connection.incoming)
-		session.Wait()
+	// Notifications (and responses) are acknowledged as soon as they are
+	// queued for the session, which may not have read them yet; closing the
+	// session now would drop them unhandled although the client was told
+	// that they were accepted. The same holds for the notifications of a
+	// body that also carries calls (a JSON-RPC batch): ServeHTTP returns when
+	// the calls have been answered, which may be before the session has read
+	// the rest of the body. This request is all the input the session will
+	// ever get, so end its input instead and wait until it has handled what it
+	// was given. (For a request without calls nothing has been sent to the
+	// client yet: the acknowledgement goes out when the HTTP handler returns,
+	// so a client that has seen it can rely on the notification having been
+	// handled.) If the request carried calls and the client has gone away in
+	// the meantime there is nobody left to acknowledge anything to: close at once,
+	// as before, so that handlers waiting for their context are released.
+	if info.hasCall && req.Context().Err() != nil {
+		return
 	}
+	close(transport.connection.incoming)
+	session.Wait()
 }
 
 // ephemeralConnectOpts peeks at the request body to determine connection
